@@ -25,6 +25,73 @@ def plan(tier, seed):
     return [dict(seed=seed, shard=i, n=4500 if tier == 'quick' else 45000) for i in range(n)]
 
 
+def _reset_bad(cfg, post):
+    vbar_reset = int(cfg['reset_values'].get('VBAR', '0b0'), 2)
+    want_pc = (0xFFFF0000 if (post['sctlr'] >> 13) & 1 else (vbar_reset if cfg['have_security_ext'] else 0)) & ~1
+    c = post['cpsr']
+    bad = []
+    if (c & 0x1F) != 0x13:
+        bad.append('mode')
+    if (c & 0x1C0) != 0x1C0:
+        bad.append('AIF')
+    if c & 0x0600FC00 or (c >> 24) & 1:
+        bad.append('IT/J')
+    if ((c >> 5) & 1) != ((post['sctlr'] >> 30) & 1) or ((c >> 9) & 1) != ((post['sctlr'] >> 25) & 1):
+        bad.append('T/E')
+    if cfg['have_security_ext'] and post['scr'] & 1:
+        bad.append('SCR.NS')
+    if post['PC'] != want_pc:
+        bad.append('vector')
+    if post['vbar'] != vbar_reset:
+        bad.append('VBAR')
+    return bad
+
+
+class _NotJudged(Exception):
+    pass
+
+
+def _do_entry(cpu, cfg, pre, kind, align):
+    """the real entry and the reference entry from the same pre-state; returns the reference CPU (None for reset)"""
+    from vf import scen
+    from vf.ref.model import RefCPU, RefAbort
+    from vf.ref import step as RS
+    from armulator.armv6.arm_exceptions import DataAbortException
+    from armulator.armv6.enums import DAbort
+    r = cpu.registers
+    ref = RefCPU(pre, cfg)
+    if kind == 'undef':
+        r.take_undef_instr_exception()
+        ref.take_undef()
+    elif kind == 'svc':
+        r.take_svc_exception()
+        ref.take_svc()
+    elif kind == 'smc':
+        r.take_smc_exception()
+        ref.take_smc()
+    elif kind == 'dabort':
+        r.take_data_abort_exception(DataAbortException(DAbort.ALIGNMENT if align else DAbort.PERMISSION, False))
+        ref.take_data_abort(RefAbort('alignment' if align else 'permission', 0, False))
+    elif kind == 'irq':
+        r.take_physical_irq_exception()
+        ref.take_irq()
+    elif kind == 'fiq':
+        r.take_physical_fiq_exception()
+        ref.take_fiq()
+    elif kind == 'hyptrap':
+        r.take_hyp_trap_exception()
+        ref.take_hyp_trap()
+    elif kind == 'reset':
+        cpu.take_reset()
+        return None
+    else:
+        k, sig = scen.step(cpu)
+        verdict, ref, info = RS.step(pre, cfg)
+        if verdict != 'ok' or k != 'ok':
+            raise _NotJudged()
+    return ref
+
+
 def run_shard(spec):
     from vf import lockstep, scen, machine as M, observe
     from vf.ref.model import RefCPU, RefAbort
@@ -97,41 +164,16 @@ def run_shard(spec):
             r.event_register = False
         desc.update(exc=kind, sctlr='%#x' % r.sctlr.value, scr='%#x' % r.scr.value, hcr='%#x' % r.hcr.value)
         M.activate(cpu)
+        align = (rng.random() < 0.5) if kind == 'dabort' else False
+        desc['align'] = align
         pre = observe.snapshot(cpu)
-        ref = RefCPU(pre, cfg)
         try:
-            if kind == 'undef':
-                r.take_undef_instr_exception()
-                ref.take_undef()
-            elif kind == 'svc':
-                r.take_svc_exception()
-                ref.take_svc()
-            elif kind == 'smc':
-                r.take_smc_exception()
-                ref.take_smc()
-            elif kind == 'dabort':
-                align = rng.random() < 0.5
-                r.take_data_abort_exception(DataAbortException(DAbort.ALIGNMENT if align else DAbort.PERMISSION, False))
-                ref.take_data_abort(RefAbort('alignment' if align else 'permission', 0, False))
-            elif kind == 'irq':
-                r.take_physical_irq_exception()
-                ref.take_irq()
-            elif kind == 'fiq':
-                r.take_physical_fiq_exception()
-                ref.take_fiq()
-            elif kind == 'hyptrap':
-                r.take_hyp_trap_exception()
-                ref.take_hyp_trap()
-            elif kind == 'reset':
-                cpu.take_reset()
-            else:
-                k, sig = scen.step(cpu)
-                verdict, ref, info = RS.step(pre, cfg)
-                if verdict != 'ok' or k != 'ok':
-                    ls.bump('insn_entry_not_judged')
-                    continue
+            ref = _do_entry(cpu, cfg, pre, kind, align)
+        except _NotJudged:
+            ls.bump('insn_entry_not_judged')
+            continue
         except Exception as ex:
-            ls.report('C11|host-error|%s|%s' % (kind, type(ex).__name__), dict(desc), desc)
+            ls.report('C11|host-error|%s|%s' % (kind, type(ex).__name__), dict(desc), desc, pre=pre)
             continue
         post = observe.snapshot(cpu)
         res['evaluations'] += 1
@@ -144,33 +186,17 @@ def run_shard(spec):
             # architecturally checkable part of TakeReset: mode, masks, execution state, NS, vector
             # ResetControlRegisters() comes first: the (Secure) VBAR holds its reset value again, whatever it held and whatever
             # SCR.NS was when the reset arrived, and the reset vector is taken from it
-            vbar_reset = int(cfg['reset_values'].get('VBAR', '0b0'), 2)
-            want_pc = (0xFFFF0000 if (post['sctlr'] >> 13) & 1 else (vbar_reset if cfg['have_security_ext'] else 0)) & ~1
+            bad = _reset_bad(cfg, post)
             c = post['cpsr']
-            bad = []
-            if (c & 0x1F) != 0x13:
-                bad.append('mode')
-            if (c & 0x1C0) != 0x1C0:
-                bad.append('AIF')
-            if c & 0x0600FC00 or (c >> 24) & 1:
-                bad.append('IT/J')
-            if ((c >> 5) & 1) != ((post['sctlr'] >> 30) & 1) or ((c >> 9) & 1) != ((post['sctlr'] >> 25) & 1):
-                bad.append('T/E')
-            if cfg['have_security_ext'] and post['scr'] & 1:
-                bad.append('SCR.NS')
-            if post['PC'] != want_pc:
-                bad.append('vector')
-            if post['vbar'] != vbar_reset:
-                bad.append('VBAR')
             if bad:
-                ls.report('C11|reset|%s' % ','.join(bad), dict(desc, cpsr_after='%#x' % c, pc='%#x' % post['PC']), desc)
+                ls.report('C11|reset|%s' % ','.join(bad), dict(desc, cpsr_after='%#x' % c, pc='%#x' % post['PC']), desc, pre=pre)
             continue
         diffs = RS.compare(ref, post)
         if diffs:
             kinds = sorted({lockstep_cat(l, e, g, ref) for l, e, g in diffs})
             ls.report('C11|%s|%s' % (route, ','.join(kinds)[:60]),
                       dict(desc, diffs=[(l, '%#x' % e if isinstance(e, int) else str(e), '%#x' % g if isinstance(g, int) else str(g))
-                                        for l, e, g in diffs[:6]]), desc)
+                                        for l, e, g in diffs[:6]]), desc, pre=pre)
         elif len(res['samples']) < 3 and rng.random() < 0.002:
             res['samples'].append(dict(desc, route=route, pc_after='%#x' % post['PC'], cpsr_after='%#x' % post['cpsr']))
     res['violations'] = list(ls.viol.values())
@@ -186,7 +212,38 @@ def lockstep_cat(loc, exp, got, ref):
 
 
 def replay(data):
-    return dict(evaluations=0, violations=[], not_replayable='this cluster is described in full by the file; it has no executable replay')
+    """the entry again from the complete pre-state the cluster's first case carries"""
+    import random
+    from vf import lockstep, machine as M, observe
+    from vf.ref import step as RS
+    rp = data.get('replay') or {}
+    if not rp.get('snapshot') or 'exc' not in rp:
+        return dict(evaluations=0, violations=[], not_replayable='this cluster is described in full by the file; it has no executable replay')
+    ls = lockstep.LockStep(ID, random.Random(0))
+    ctx = ls.ctx(tuple(rp['ctx']))
+    cpu = ctx.cpu
+    M.activate(cpu)
+    observe.restore(cpu, observe.unjson(rp['snapshot']))
+    pre = observe.snapshot(cpu)
+    kind = rp['exc']
+    out = dict(evaluations=1, violations=[])
+    try:
+        ref = _do_entry(cpu, ctx.cfg, pre, kind, bool(rp.get('align')))
+    except _NotJudged:
+        return out
+    except Exception as ex:
+        out['violations'].append(dict(key='C11|host-error|%s|%s' % (kind, type(ex).__name__), desc=repr(ex)))
+        return out
+    post = observe.snapshot(cpu)
+    if kind == 'reset':
+        bad = _reset_bad(ctx.cfg, post)
+        if bad:
+            out['violations'].append(dict(key='C11|reset|%s' % ','.join(bad), desc='pc %#x cpsr %#x' % (post['PC'], post['cpsr'])))
+        return out
+    diffs = RS.compare(ref, post)
+    if diffs:
+        out['violations'].append(dict(key='C11|%s' % kind, desc=str(diffs[:6])))
+    return out
 
 
 def finish(agg, tier, seed):
